@@ -273,6 +273,44 @@ func c07Facts(data []byte) []gbFacts {
 	return out
 }
 
+// isK7C: the shape of known finding K7C - a line end of two or more CRs and a LF, behind which
+// pars.Line (go-pars v1.1.6) swallows the first byte(s) of the next line.
+func isK7C(data []byte) bool { return bytes.Contains(data, []byte("\r\r\n")) }
+
+// faResidues: an independent reading of a FASTA stream: per record (cut at every `>`), the bytes
+// behind the description line without LF and without a CR directly in front of a LF.
+func faResidues(data []byte) []int {
+	var out []int
+	i := bytes.IndexByte(data, '>')
+	if i != 0 {
+		return nil
+	}
+	for _, rec := range bytes.Split(data[1:], []byte(">")) {
+		// description line: up to LF, CR LF or a lone CR
+		j := 0
+		for j < len(rec) && rec[j] != '\n' && rec[j] != '\r' {
+			j++
+		}
+		if j < len(rec) && rec[j] == '\r' {
+			j++
+			if j < len(rec) && rec[j] == '\n' {
+				j++
+			} else if j < len(rec) && rec[j] == '\r' {
+				return nil // a CR run: shape K7C, judged separately
+			}
+		} else if j < len(rec) {
+			j++
+		}
+		body := rec[j:]
+		n := 0
+		for _, ln := range bytes.Split(body, []byte("\n")) {
+			n += len(bytes.TrimSuffix(ln, []byte("\r")))
+		}
+		out = append(out, n)
+	}
+	return out
+}
+
 type c07Ctx struct {
 	r        *Run
 	seen     map[string]struct{}
@@ -322,7 +360,11 @@ func (c *c07Ctx) scanCase(class string, data []byte, mustFail bool) scanResult {
 					if nGb == 0 {
 						small = c.shrink(data, pred)
 					}
-					r.fail(Failure{Oracle: "a scanned record has Len = declared LOCUS length = residues in its ORIGIN block (" + class + ")",
+					fid := ""
+					if isK7C(small) {
+						fid = "K7C"
+					}
+					r.fail(Failure{Oracle: "a scanned record has Len = declared LOCUS length = residues in its ORIGIN block (" + class + ")", Finding: fid,
 						Op: "scan.auto " + encBytes(small), Got: fmt.Sprintf("%s (record %d: Len %d, declared %d, residues present %d)", res.String(), nGb, res.lens[i], f.declared, f.residues),
 						Want: "an error, or no record"})
 				} else {
@@ -335,6 +377,25 @@ func (c *c07Ctx) scanCase(class string, data []byte, mustFail bool) scanResult {
 			}
 		}
 		nGb++
+	}
+	if res.verdict == "OK" && len(res.kinds) > 0 && res.kinds[0] == "fa" && strings.Contains(class, ".fasta") {
+		want := faResidues(data)
+		if want != nil || isK7C(data) {
+			same := len(want) == len(res.lens)
+			for i := 0; same && i < len(want); i++ {
+				same = want[i] == res.lens[i]
+			}
+			if !same {
+				fid := ""
+				if isK7C(data) {
+					fid = "K7C"
+				}
+				r.fail(Failure{Oracle: "a FASTA record holds every byte behind its description line except line ends (" + class + ")", Finding: fid,
+					Op: op, Got: res.String(), Want: fmt.Sprint(want)})
+			} else {
+				r.count("consistency/fasta checked")
+			}
+		}
 	}
 	if mustFail && len(res.lens) > 0 {
 		small := c.shrink(data, func(d []byte) bool {
@@ -589,6 +650,19 @@ func (c *c07Ctx) mutateFile(cf corpusFile, quick bool) {
 				}
 			}
 		}
+	}
+
+	// (8b) a CR pushed in front of one line end of the CRLF form (CR CR LF) and of the LF form (CR LF)
+	cstride := lstride * 2
+	for i := r.rng.intn(cstride); i < len(ls); i += cstride {
+		if len(ls[i]) == 0 || ls[i][len(ls[i])-1] != '\n' {
+			continue
+		}
+		m := append([][]byte{}, ls...)
+		m[i] = append(append([]byte{}, ls[i][:len(ls[i])-1]...), '\r', '\r', '\n')
+		c.scanCase("cr-cr-lf/"+name, joinLines2(m), false)
+		m[i] = append(append([]byte{}, ls[i][:len(ls[i])-1]...), '\r', '\n')
+		c.scanCase("one-crlf/"+name, joinLines2(m), false)
 	}
 
 	// (3) declared length
@@ -1299,6 +1373,8 @@ func propC07(r *Run) {
 		{"F16 REFERENCE 1000", "LOCUS       X                  0 bp    DNA     linear   UNA 01-JAN-2000\nREFERENCE   1000\n//\n"},
 		{"F17 declared length -60", "LOCUS       X                 -60 bp    DNA     linear   UNA 01-JAN-2000\nORIGIN      \n//\n"},
 		{"F10 truncated inside ORIGIN", "LOCUS       X                  20 bp    DNA     linear   UNA 01-JAN-2000\nORIGIN      \n        1 acgtacgtac acg"},
+		{"K7C CR CR LF in front of ORIGIN", "LOCUS       X                  4 bp    DNA     linear   UNA 01-JAN-2000\nBASE\r\r\nORIGIN      \n        1 acgt\n//\n"},
+		{"K7C CR CR CR LF in a field body", "LOCUS       X                  4 bp    DNA     linear   UNA 01-JAN-2000\nDEFINITION  x.\r\r\r\nORIGIN      \n        1 acgt\n//\n"},
 		{"empty DEFINITION", "LOCUS       X                  0 bp    DNA     linear   UNA 01-JAN-2000\nDEFINITION  \n//\n"},
 		{"DEFINITION at end of input", "LOCUS       X                  0 bp    DNA     linear   UNA 01-JAN-2000\nDEFINITION  "},
 	} {
@@ -1306,10 +1382,8 @@ func propC07(r *Run) {
 		c.scanCase("recorded-shape-crlf/"+w.name, toCRLF([]byte(w.text)), false)
 	}
 
+	c.scanCase("recorded-shape/K7C fasta.fasta", []byte(">d\r\r\nACGT\n"), false)
 	for _, cf := range corpus {
-		if quick && len(cf.data) > 10000 && cf.name != "NC_001422.gb" {
-			// the big FASTA file: truncation and flips only with a large stride (done inside)
-		}
 		c.mutateFile(cf, quick)
 	}
 	c.lengthMismatch(quick)
